@@ -308,6 +308,12 @@ def _align_vectors(
         a_primary, b_primary = F.normalize(a_primary, dim=0), F.normalize(b_primary, dim=0)
         cross = torch.linalg.cross(b_primary, a_primary, dim=0)
         angle = torch.atan2(torch.norm(cross), torch.dot(a_primary, b_primary))
+        if torch.norm(cross) < 1e-6 and torch.dot(a_primary, b_primary) < 0:
+            # antiparallel vectors: the cross product vanishes (up to rounding) and cannot be normalised to an axis;
+            # any axis orthogonal to the vectors gives the half turn
+            i = int(torch.argmin(a_primary.abs()))
+            cross = torch.zeros_like(a_primary)
+            cross[i - 1], cross[i - 2] = a_primary[i - 2], -a_primary[i - 1]
         rot_primary = _axisangle_to_matrix(cross, angle)
 
         if n_vecs == 1:
